@@ -60,7 +60,8 @@ impl Personality for ConPers {
         let rl: Vec<u32> = chain.elems.iter().filter(|e| !e.w).map(|e| e.len).collect();
         let wl: Vec<u32> = chain.elems.iter().filter(|e| e.w).map(|e| e.len).collect();
         let affine = readable.windows(2).all(|w| w[1] == w[0].wrapping_add(7));
-        w.dev(json!({"e":"DevTx","dg":fnv64(readable),"len":readable.len(),"rl":rl,"wl":wl,
+        let bytes: Vec<u8> = if readable.len() <= 64 { readable.to_vec() } else { vec![] };
+        w.dev(json!({"e":"DevTx","dg":fnv64(readable),"len":readable.len(),"rl":rl,"wl":wl,"bytes":bytes,
                      "first":readable.first().copied().map(|b| b as i64).unwrap_or(-1),"affine":affine}));
         Some(Response { data: vec![], used_len: Some(0) })
     }
@@ -169,6 +170,41 @@ fn drive<T: Transport>(t: T, p: &ConParams, rng: &mut SmallRng) -> String {
                         dev(json!({"e":"Ret","ok":true}));
                     }
                     Err(e) => fail(e),
+                }
+            }
+            93..=94 => {
+                // core::fmt::Write: string pieces, single characters (ASCII and beyond), padded
+                // arguments; the caller's bytes are the UTF-8 text the same formatting produces
+                use core::fmt::Write;
+                const CHARS: [char; 8] = ['a', '~', '\u{e9}', '\u{20ac}', '\u{1f600}', '\u{ff}', '\u{100}', '\n'];
+                let c = CHARS[rng.gen_range(0..CHARS.len())];
+                let fill = CHARS[rng.gen_range(0..7)];
+                let num: u32 = rng.gen_range(0..100000);
+                let word = ["y", "x", "h\u{e9}llo", "\u{20ac}\u{20ac}"][rng.gen_range(0..4)];
+                let kind = rng.gen_range(0..5);
+                let text: String = match kind {
+                    0 => c.to_string(),
+                    1 => word.to_string(),
+                    2 => format!("{word}:{c}{num}"),
+                    3 => { let mut t = String::new(); for _ in 0..(8usize.saturating_sub(num.to_string().len())) { t.push(fill); } t + &num.to_string() }
+                    _ => format!("<{c}|{c:?}>"),
+                };
+                let bytes: Vec<u8> = text.as_bytes().to_vec();
+                dev(json!({"e":"Call","op":"fmt","bytes":bytes,"len":bytes.len()}));
+                let r = match kind {
+                    0 => con.write_char(c),
+                    1 => con.write_str(word),
+                    2 => write!(con, "{word}:{c}{num}"),
+                    3 => match fill {
+                        'a' => write!(con, "{num:a>8}"), '~' => write!(con, "{num:~>8}"), '\u{e9}' => write!(con, "{num:\u{e9}>8}"),
+                        '\u{20ac}' => write!(con, "{num:\u{20ac}>8}"), '\u{1f600}' => write!(con, "{num:\u{1f600}>8}"),
+                        '\u{ff}' => write!(con, "{num:\u{ff}>8}"), _ => write!(con, "{num:\u{100}>8}"),
+                    },
+                    _ => write!(con, "<{c}|{c:?}>"),
+                };
+                match r {
+                    Ok(()) => dev(json!({"e":"Ret","ok":true})),
+                    Err(_) => dev(json!({"e":"Ret","ok":false,"err":"fmt"})),
                 }
             }
             95..=99 => {
